@@ -483,7 +483,7 @@ def r19_11(ctx: Ctx) -> None:
                     ok = True
                 elif isinstance(cd.func, ast.Attribute) and norm(cd.func.value) == "self":
                     m = ctx.prog.method(ctx.prog.cls("SevenZipFile", "py7zr"), cd.func.attr)
-                    if m is not None and any(isinstance(x, ast.Call) and attr_tail(x) in SAME_FILE and any("self.fp" in norm(a_) or "self.filename" in norm(a_) for a_ in x.args) for x in walk(m.node)):
+                    if m is not None and any(isinstance(x, ast.Call) and attr_tail(x) in SAME_FILE and any("self.fp" in norm(q.expand_locals(m, a_)) or "self.filename" in norm(q.expand_locals(m, a_)) for a_ in x.args) for x in walk(m.node)):
                         ok = True
             ctx.check(ok, "R19.11", f, wcall, "a file found by the walk is stored only if it is not the archive being written",
                       "_writeall stores every regular file it finds, also the archive it is writing (`c backup.7z .`): the half-written archive becomes a member of itself, "
